@@ -3,14 +3,14 @@
 _MAIN = {
     "pkg": ".", "hdir": "dastard", "harness": DASTARD_COMMON + ["zz_verif_trig_test.go", "zz_verif_c02_test.go"], "test": "TestVerifC02",
     "engines": ["vexp"],
-    "quick": T(16, 90), "thorough": T(16, 900),
+    "quick": T(16, 180), "thorough": T(16, 900),
 }
 # part 1: race probe -- three channels with the same edge/level/auto configuration processed concurrently by the real ProcessSegments
 # in a race-detector build (zz_verif_raceprobe_test.go also holds the C08 probe, hence zz_verif_c08_test.go)
 _RACE = {
     "pkg": ".", "hdir": "dastard", "harness": DASTARD_COMMON + ["zz_verif_trig_test.go", "zz_verif_c08_test.go", "zz_verif_raceprobe_test.go"], "test": "TestVerifC02Race",
     "engines": ["vexp", "vhook"], "runtime_patch": True, "race": True, "gomaxprocs": 4,
-    "quick": T(16, 60), "thorough": T(16, 300),
+    "quick": T(16, 90), "thorough": T(16, 300),
 }
 ENTRY = {
     "C02": dict(_MAIN, **{
